@@ -34,13 +34,13 @@ class Result:
 # presentation of an input, varied as a deterministic function of the input (see adapters.dict_order_of): gene families
 # spelled with multi-character names one of which is a textual prefix of another, and object ancestors that all carry the
 # same label (as when support values are read as names) - neither may influence a result
-FAMILY_ALIAS = {"a": "g1", "b": "g10", "c": "g2", "d": "g20", "z": "g100"}
+FAMILY_ALIAS = {"a": "g1", "b": "g10", "c": "g2", "d": "g20", "e": "g3", "f": "g30", "z": "g100"}
 # second spelling: names that differ only by leading zeros (equal under a "natural sort" key)
-FAMILY_ALIAS_ZEROS = {"a": "cas1", "b": "cas01", "c": "cas001", "d": "cas0001", "z": "cas00001"}
+FAMILY_ALIAS_ZEROS = {"a": "cas1", "b": "cas01", "c": "cas001", "d": "cas0001", "e": "cas2", "f": "cas02", "z": "cas00001"}
 
 
 # third spelling: names whose concatenations collide ("a" + "ba" = "ab" + "a" = "aba")
-FAMILY_ALIAS_GLUE = {"a": "a", "b": "ba", "c": "ab", "d": "aba", "z": "baab"}
+FAMILY_ALIAS_GLUE = {"a": "a", "b": "ba", "c": "ab", "d": "aba", "e": "b", "f": "bab", "z": "baab"}
 
 
 def presentation_of(leafmap):
